@@ -16,7 +16,7 @@ func init() {
 			"NOT decided: that rewriting loses, duplicates or reorders no row (value-level), planner optimality.",
 		Assumptions: commonAssumptions,
 		Technique:   "static analysis: must-precede / never-after / post-dominance cuts on go/cfg, lockset dataflow, who-may-call tables",
-		Rules:       "C03.R1 R1b R2 R3 R4 R5 R6",
+		Rules:       "C03.R1 R1b R2 R3 R4 R5 R6 R7",
 	}
 }
 
@@ -354,4 +354,117 @@ func refObjOf(f *an.Fn, e ast.Expr) types.Object {
 		return f.Info.Uses[x.Sel]
 	}
 	return nil
+}
+
+func init() {
+	old := All["C03"].Run
+	All["C03"].Run = func(c *an.Ctx) {
+		old(c)
+		c03recoveryNames(c)
+	}
+}
+
+// c03recoveryNames: the replace protocol renames new files from <f>.tssp.init to
+// <f>.tssp and in-use old files from <f>.tssp to <f>.tssp.init, one by one.  A
+// crash can therefore leave each logged file under either name.  The start-up
+// pass decides "roll forward or back" from two existence predicates; each must
+// recognise BOTH names of its file, otherwise a half-renamed set is taken for
+// missing files and the log is discarded with old and new files both visible.
+func c03recoveryNames(c *an.Ctx) {
+	const I = "engine/immutable"
+	r := c.Rule("C03.R7", "K-SIBLING", I+":getProcessLogFuncs — the existence predicates of the recovery pass recognise the temporary and the final name of a logged file")
+	f := fn(r, I+":getProcessLogFuncs")
+	if f == nil {
+		return
+	}
+	type pred struct{ name string }
+	found := 0
+	ast.Inspect(f.Body, func(n ast.Node) bool {
+		as, ok := n.(*ast.AssignStmt)
+		if !ok || len(as.Lhs) != 1 || len(as.Rhs) != 1 {
+			return true
+		}
+		id, ok := as.Lhs[0].(*ast.Ident)
+		if !ok || (id.Name != "newFileExist" && id.Name != "oldFileExist") {
+			return true
+		}
+		lit, ok := as.Rhs[0].(*ast.FuncLit)
+		if !ok || len(lit.Type.Params.List) != 1 || len(lit.Type.Params.List[0].Names) != 1 {
+			return true
+		}
+		found++
+		param := f.Info.Defs[lit.Type.Params.List[0].Names[0]]
+		// expressions derived from the parameter that are compared or looked up
+		plain, derived := false, false
+		var isDerived func(e ast.Expr) (bool, bool)
+		isDerived = func(e ast.Expr) (mentions bool, viaSuffix bool) {
+			ast.Inspect(e, func(k ast.Node) bool {
+				if x, ok := k.(*ast.Ident); ok {
+					if f.Info.Uses[x] == param {
+						mentions = true
+					}
+					if x.Name == "tmpFileSuffix" {
+						viaSuffix = true
+					}
+				}
+				return true
+			})
+			return
+		}
+		locals := map[types.Object]bool{} // locals defined from param together with tmpFileSuffix
+		ast.Inspect(lit.Body, func(k ast.Node) bool {
+			if a2, ok := k.(*ast.AssignStmt); ok && len(a2.Lhs) == 1 && len(a2.Rhs) == 1 {
+				if m, v := isDerived(a2.Rhs[0]); m && v {
+					if lid, ok := a2.Lhs[0].(*ast.Ident); ok {
+						locals[f.Info.ObjectOf(lid)] = true
+					}
+				}
+			}
+			return true
+		})
+		use := func(e ast.Expr) {
+			e = ast.Unparen(e)
+			if x, ok := e.(*ast.Ident); ok {
+				if f.Info.Uses[x] == param {
+					plain = true
+				}
+				if locals[f.Info.Uses[x]] {
+					derived = true
+				}
+				return
+			}
+			if m, v := isDerived(e); m && v {
+				derived = true
+			}
+		}
+		ast.Inspect(lit.Body, func(k ast.Node) bool {
+			switch x := k.(type) {
+			case *ast.BinaryExpr:
+				if x.Op.String() == "==" || x.Op.String() == "!=" {
+					use(x.X)
+					use(x.Y)
+				}
+			case *ast.CallExpr:
+				for _, a := range x.Args {
+					use(a)
+				}
+			}
+			return true
+		})
+		r.AddSites(2)
+		if !plain {
+			r.Fail(id.Name+": logged name not tested", c.P.Pos(lit.Pos()), "%s does not test the name as it is written in the log", id.Name)
+		}
+		if !derived {
+			other := "its final name (without tmpFileSuffix): new files that were already renamed count as missing, the pass takes the 'restore old files' branch or discards the log, and old and new files stay visible together"
+			if id.Name == "oldFileExist" {
+				other = "its temporary name (+ tmpFileSuffix): in-use old files that were already renamed aside count as missing"
+			}
+			r.Fail(id.Name+": other name not tested", c.P.Pos(lit.Pos()), "%s does not test %s", id.Name, other)
+		}
+		return true
+	})
+	if found != 2 {
+		r.Fail(f.Name+": predicates", c.P.Pos(f.Body.Pos()), "expected the two existence predicates newFileExist and oldFileExist, found %d", found)
+	}
 }
